@@ -231,12 +231,12 @@ def bind_args(call: ast.Call, fn: ast.FunctionDef, is_method: bool) -> T.Dict[st
     return out
 
 
-def const_values_tested(test: ast.AST, var: str) -> T.Optional[T.Set[T.Any]]:
+def const_values_tested(test: ast.AST, var: str, mod: T.Optional[Module] = None) -> T.Optional[T.Set[T.Any]]:
     """The constants `var` is compared with when `test` holds: `var == c`, `c == var`, `var in {..}`, `var == a or var == b`."""
     if isinstance(test, ast.BoolOp) and isinstance(test.op, ast.Or):
         out: T.Set[T.Any] = set()
         for v in test.values:
-            r = const_values_tested(v, var)
+            r = const_values_tested(v, var, mod)
             if r is None:
                 return None
             out |= r
@@ -249,6 +249,13 @@ def const_values_tested(test: ast.AST, var: str) -> T.Optional[T.Set[T.Any]]:
             if norm(r) == var and isinstance(l, ast.Constant):
                 return {l.value}
         if isinstance(test.ops[0], ast.In) and norm(l) == var:
+            if isinstance(r, (ast.Name, ast.Attribute)) and mod is not None:
+                try:                                   # a named constant set: folded
+                    v_ = fold_expr(mod.repo, mod, r)
+                except Exception:
+                    v_ = None
+                if isinstance(v_, (set, frozenset, tuple, list)) and all(isinstance(x, (str, int)) for x in v_):
+                    return set(v_)
             if isinstance(r, (ast.Set, ast.Tuple, ast.List)) and all(isinstance(x, ast.Constant) for x in r.elts):
                 return {x.value for x in r.elts}  # type: ignore[attr-defined]
             if isinstance(r, ast.Call) and norm(r.func) in ('frozenset', 'set') and len(r.args) == 1 and isinstance(r.args[0], (ast.Set, ast.Tuple, ast.List)) \
@@ -373,7 +380,7 @@ def lexer_line_model(ctx: RuleCtx) -> T.Tuple[T.Set[str], int, int, T.List[str]]
 
 def _trigger_chars(ctx: RuleCtx, mod: Module, fn: ast.AST, guard: ast.If, inc: ast.AugAssign) -> T.Set[str]:
     test = guard.test
-    tids: T.Set[str] = const_values_tested(test, 'tid') or set()
+    tids: T.Set[str] = const_values_tested(test, 'tid', mod) or set()
     if not tids:
         raise Undecided(f'Lexer.lex: line counter moves under `{short(test)}`')
     out: T.Set[str] = set()
@@ -654,6 +661,49 @@ def _line_table(ctx: RuleCtx, mod: Module, scope: ast.AST, tname: str, rname: st
 
 
 
+def _getter_of(mod: Module, e: ast.AST) -> T.Optional[T.Tuple[str, T.List[str]]]:
+    """('attr'|'item', names) when e is operator.attrgetter(...)/itemgetter(...) or a module-level name bound to one."""
+    if isinstance(e, ast.Name) and mod.has_assign(e.id):
+        e = mod.assign_value(e.id)
+    if isinstance(e, ast.Call) and (attr_chain(e.func) or '').split('.')[-1] in ('attrgetter', 'itemgetter') and e.args \
+            and all(isinstance(a, ast.Constant) and isinstance(a.value, str) for a in e.args):
+        return ('attr' if (attr_chain(e.func) or '').endswith('attrgetter') else 'item', [a.value for a in e.args])  # type: ignore[attr-defined]
+    return None
+
+
+def _apply_getter(kind: str, names: T.List[str], x: ast.AST) -> ast.AST:
+    def one(n: str) -> ast.AST:
+        base: ast.AST = copy.deepcopy(x)
+        if kind == 'attr':
+            for part in n.split('.'):
+                base = ast.Attribute(value=base, attr=part, ctx=ast.Load())
+            return base
+        return ast.Attribute(value=base, attr=n, ctx=ast.Load()) if n.isidentifier() else ast.Subscript(value=base, slice=ast.Constant(value=n), ctx=ast.Load())
+    return one(names[0]) if len(names) == 1 else ast.Tuple(elts=[one(n) for n in names], ctx=ast.Load())
+
+
+class _GetterCalls(ast.NodeTransformer):
+    """`G(x)` with G an attrgetter/itemgetter (possibly a module constant) becomes the attribute / field access it performs."""
+
+    def __init__(self, mod: Module):
+        self.mod = mod
+
+    def visit_Call(self, c: ast.Call) -> ast.AST:
+        self.generic_visit(c)
+        g = _getter_of(self.mod, c.func)
+        if g is not None and len(c.args) == 1 and not c.keywords:
+            return ast.fix_missing_locations(ast.copy_location(_apply_getter(g[0], g[1], c.args[0]), c))
+        return c
+
+
+def _getter_lambda(mod: Module, key: ast.AST) -> T.Optional[ast.Lambda]:
+    g = _getter_of(mod, key)
+    if g is None:
+        return None
+    arg = ast.arg(arg='x')
+    return ast.Lambda(args=ast.arguments(posonlyargs=[], args=[arg], kwonlyargs=[], kw_defaults=[], defaults=[]), body=_apply_getter(g[0], g[1], ast.Name(id='x', ctx=ast.Load())))
+
+
 def r3(ctx: RuleCtx) -> None:
     mod = ctx.repo.module(REWRITER)
     # normal form: one-expression helpers inlined, record fields in one spelling (x['f'] == x.f)
@@ -698,9 +748,13 @@ def r3(ctx: RuleCtx) -> None:
         body_ = [st_ for st_ in kf[0].body if not (isinstance(st_, ast.Expr) and isinstance(st_.value, ast.Constant))] if len(kf) == 1 else []
         if len(body_) == 1 and isinstance(body_[0], ast.Return) and body_[0].value is not None:
             key = ast.Lambda(args=kf[0].args, body=FieldNorm().visit(copy.deepcopy(body_[0].value)))
+    if isinstance(key, (ast.Name, ast.Call)) and not isinstance(key, ast.Lambda):
+        g = _getter_lambda(mod, key)
+        if g is not None:
+            key = g
     if not isinstance(key, ast.Lambda):
         raise Undecided('apply_changes: sort key is not a lambda')
-    kb = _strip_cast(key.body)
+    kb = _strip_cast(_GetterCalls(mod).visit(copy.deepcopy(key.body)))
     elts = list(kb.elts) if isinstance(kb, ast.Tuple) else [kb]
     neg = [isinstance(e, ast.UnaryOp) and isinstance(e.op, ast.USub) for e in elts]
     cores = [norm(e.operand if n else e) for e, n in zip(elts, neg)]  # type: ignore[attr-defined]
@@ -742,8 +796,13 @@ def r3(ctx: RuleCtx) -> None:
         raise Undecided('apply_changes: splice loop not found')
     loop = loops[0]
     # which parameter of the splicer is the work item: the one bound to the loop variable at the call
-    item_params = {p_ for c in ast.walk(loop) if calls_splicer(c) for p_, a_ in bind_args(T.cast(ast.Call, c), sp, sp_is_method).items() if norm(a_) == norm(loop.target)}
-    if len(item_params) != 1:
+    # every parameter of the splicer stands for an expression over the loop variable (the whole work item, or its fields passed one by one)
+    sp_calls = [c for c in ast.walk(loop) if calls_splicer(c)]
+    if len(sp_calls) != 1:
+        raise Undecided(f'apply_changes: {len(sp_calls)} calls of {sp.name} in the splice loop')
+    param_env: T.Dict[str, ast.AST] = {p_: _strip_cast(a_) for p_, a_ in bind_args(T.cast(ast.Call, sp_calls[0]), sp, sp_is_method).items()}
+    loopvar = norm(loop.target)
+    if not isinstance(loop.target, ast.Name) or not any(loopvar in {x.id for x in ast.walk(a_) if isinstance(x, ast.Name)} for a_ in param_env.values()):
         raise Undecided(f'apply_changes: cannot tell which parameter of {sp.name} receives the work item')
     # entries appended after the sort must not be positional edits.  Whatever the record looks like (dict, tuple, ...), an entry
     # carries a constant tag; the tags of positional edits are the constants the splice loop tests before it calls the splicer
@@ -785,7 +844,7 @@ def r3(ctx: RuleCtx) -> None:
         writers = [n for n in ast.walk(fn) if (isinstance(n, ast.AugAssign) and norm(n.target) == lname)
                    or (isinstance(n, ast.Call) and norm(n.func) in (f'{lname}.append', f'{lname}.extend', f'{lname}.insert'))]
         feeders = [n for n in walk_no_nested(fn) if isinstance(n, ast.For) and norm(n.iter) == work and any(w in list(ast.walk(n)) for w in writers)]
-        inits = [n for n in walk_no_nested(fn) if isinstance(n, ast.Assign) and norm(n.targets[0]) == lname]
+        inits = [n for n in walk_no_nested(fn) if (isinstance(n, ast.Assign) and norm(n.targets[0]) == lname) or (isinstance(n, ast.AnnAssign) and norm(n.target) == lname and n.value is not None)]
         if len(writers) != 1 or len(feeders) != 1 or len(inits) != 1 or not (isinstance(inits[0].value, ast.List) and not inits[0].value.elts):
             raise Undecided(f'apply_changes: {lname} is not filled by one in-order pass over {work}')
         if isinstance(writers[0], ast.Call) and norm(writers[0].func).endswith('.insert'):
@@ -804,7 +863,7 @@ def r3(ctx: RuleCtx) -> None:
     r3_append_and_scan(ctx, mod, fn, loop, sp, sp_q, term, calls_splicer)
     for e in evid:
         ctx.note('lexer: ' + e)
-    param = next(iter(item_params))
+    param = loopvar
     paths = [p for p in enumerate_paths(sp.body) if any(_is_text_store(s, F_text) for s in p.stmts())]
     chosen: T.List[Path] = []
     for p in paths:
@@ -815,7 +874,7 @@ def r3(ctx: RuleCtx) -> None:
         raise Undecided(f'{sp_q}: {len(chosen)} paths for Array/Function nodes')
     p = chosen[0]
     store = [s for s in p.stmts() if _is_text_store(s, F_text)][0]
-    env = sym_exec(p, stop=store)
+    env = sym_exec(p, stop=store, env=param_env)      # parameters read as their call-site expressions
     rhs = _strip_cast(_Subst(env).visit(copy.deepcopy(store.value)))  # type: ignore[attr-defined]
     parts = _flatten_add(rhs)
     target_base = norm(_Subst(env).visit(copy.deepcopy(store.targets[0].value)))  # type: ignore[attr-defined]
@@ -1736,6 +1795,17 @@ def r6(ctx: RuleCtx) -> None:
         fl = Flow(f)
         if any(isinstance(c, ast.Call) and _re_callee(m2, c).startswith('re.') and c.args and f'param:{pp}' in fl.origins(c.args[0]) for c in ast.walk(f)):
             appliers.append((m2, q, f, pp))
+        # the work may be handed to a module-level helper: follow the pattern into it (bound by signature)
+        for c in ast.walk(f):
+            if isinstance(c, ast.Call) and isinstance(c.func, ast.Name) and m2.has_func(c.func.id) and c.func.id not in seen:
+                hfn = m2.func(c.func.id)
+                b_ = bind_args(c, T.cast(ast.FunctionDef, hfn), False)
+                hit_ = [k_ for k_, a_ in b_.items() if f'param:{pp}' in fl.origins(a_)]
+                if len(hit_) == 1:
+                    seen.add(c.func.id)
+                    hfl = Flow(hfn)
+                    if any(isinstance(c2, ast.Call) and _re_callee(m2, c2).startswith('re.') and c2.args and f'param:{hit_[0]}' in hfl.origins(c2.args[0]) for c2 in ast.walk(hfn)):
+                        appliers.append((m2, c.func.id, T.cast(ast.FunctionDef, hfn), hit_[0]))
         # callables handed on / called with the pattern
         fparams: T.Dict[str, str] = {}
         for c in ast.walk(f):
